@@ -1063,6 +1063,10 @@ def _eval_gauss_query(spec, rep, q, cutoff, cache=None):
         return None
     hb = float(sf.hbar)
     tol = _tol(rep, m)
+    if rep == "fock" and m in ("wigner", "x_quad_values", "p_quad_values") and hb < 2:
+        # the grid points are fixed numbers: at a smaller hbar they lie further out in units of sqrt(hbar), where the truncated
+        # Fock expansion converges more slowly, and W itself scales with 1/hbar (false alarm of quick seed 51: cutoff 7, hbar = 1)
+        tol = tol * (2.0 / hb) ** 2
     if m == "reduced_state":
         ms = q["modes"]
         idx = list(ms) + [x + n for x in ms]
